@@ -819,7 +819,10 @@ func (g *schemaGenerator) generateAnyOfType(anyOf []*schemas.Type, scope nameSco
 		return nil, errEmptyInAnyOf
 	}
 
-	rAnyOf := g.resolveRefs(anyOf)
+	rAnyOf, err := g.resolveRefs(anyOf)
+	if err != nil {
+		return nil, err
+	}
 
 	var isCycle bool
 
@@ -857,7 +860,10 @@ func (g *schemaGenerator) generateAnyOfType(anyOf []*schemas.Type, scope nameSco
 }
 
 func (g *schemaGenerator) generateAllOfType(allOf []*schemas.Type, scope nameScope) (codegen.Type, error) {
-	rAllOf := g.resolveRefs(allOf)
+	rAllOf, err := g.resolveRefs(allOf)
+	if err != nil {
+		return nil, err
+	}
 
 	allOfType, err := schemas.AllOf(rAllOf)
 	if err != nil {
@@ -1165,21 +1171,19 @@ func (g *schemaGenerator) generateEnumType(t *schemas.Type, scope nameScope) (co
 	return &codegen.NamedType{Decl: &enumDecl}, nil
 }
 
-func (g *schemaGenerator) resolveRefs(types []*schemas.Type) []*schemas.Type {
+func (g *schemaGenerator) resolveRefs(types []*schemas.Type) ([]*schemas.Type, error) {
 	resolvedTypes := make([]*schemas.Type, 0, len(types))
 
 	for _, typ := range types {
 		resolvedType, err := g.resolveRef(typ)
 		if err != nil {
-			g.warner(fmt.Sprintf("Could not resolve ref %q: %v", typ.Ref, err))
-
-			continue
+			return nil, fmt.Errorf("could not resolve ref %q: %w", typ.Ref, err)
 		}
 
 		resolvedTypes = append(resolvedTypes, resolvedType)
 	}
 
-	return resolvedTypes
+	return resolvedTypes, nil
 }
 
 func (g *schemaGenerator) resolveRef(t *schemas.Type) (*schemas.Type, error) {
